@@ -14,7 +14,7 @@ ANCHORS = ['numdifftools.limits:Limit._lim', 'numdifftools.limits:Limit._call_li
            'numdifftools.limits:_Limit._extrapolate', 'numdifftools.limits:_Limit._get_best_estimate',
            'numdifftools.limits:CStepGenerator.step_ratio']
 MIN_COUNTERS = dict(quick={'limit_values_asserted': 1500, 'residue_values_asserted': 400, 'regular_points_asserted': 300,
-                           'array_cases': 300, 'complex_z0_cases': 400, 'spiral_cases': 400, 'side_asserted': 600,
+                           'array_cases': 300, 'multidimensional_array_cases': 60, 'complex_z0_cases': 400, 'spiral_cases': 400, 'side_asserted': 600,
                            'method:above': 500, 'method:below': 500},
                     thorough={'limit_values_asserted': 60000})
 RULE = ('f(z) = g(z) s(z - z0), g in {exp(a z), polynomial, cos z + 2, 1/(4 + z)}, s in {sin w / w, expm1 w / w, log1p w / w, w / sin w, '
@@ -90,7 +90,7 @@ def cases(rng, tier, shard, nshards):
             opts = dict(step=float(top / ratio ** (nst - 1)), step_ratio=ratio, num_steps=nst)
         elif rng.random() < 0.4:
             opts = dict(step_ratio=float(rng.choice([2.0, 3.0, 4.0, 8.0, 16.0])))
-        size = 0 if rng.random() < 0.6 else int(rng.integers(2, 6))
+        size = 0 if rng.random() < 0.6 else int(rng.integers(2, 10))
         yield dict(kind=kind, kernel=kernel, g=str(rng.choice(GS)), a=float(np.round(rng.uniform(0.3, 1.5), 3)),
                    z0=[float(np.round(rng.uniform(-3, 3), 3)) if not cz else float(np.round(rng.uniform(-1, 1), 3)),
                        float(np.round(rng.uniform(-1, 1), 3)) if cz else 0.0],
@@ -161,10 +161,14 @@ def run_case(case, ctx):
         ctx.count('array_cases')
         zs = np.array([z0] * size, dtype=complex if isinstance(z0, complex) else float)
         regular = rng.random(size) < 0.5
-        regular[0] = False
+        regular[int(rng.integers(0, size))] = False          # at least one singular entry, anywhere
         offs = rng.uniform(0.05, 0.2, size=size) * (1 if method == 'above' else -1)
         zs = np.where(regular, zs + offs, zs)
         zin = zs
+        shapes = {4: [(2, 2)], 6: [(2, 3), (3, 2)], 8: [(2, 4), (4, 2), (2, 2, 2)], 9: [(3, 3)]}.get(size)
+        if shapes and rng.random() < 0.7:
+            zin = zs.reshape(shapes[int(rng.integers(0, len(shapes)))])
+            ctx.count('multidimensional_array_cases')
     else:
         zin, regular, zs = z0, np.array([False]), np.array([z0])
     L = Limit(rec, **kw)
@@ -177,6 +181,9 @@ def run_case(case, ctx):
     except Exception as exc:
         ctx.reject('limit_raised', observed='%s: %s' % (type(exc).__name__, str(exc)[:150]),
                    exc_type=type(exc).__name__, path=path, complex_z0=isinstance(z0, complex), kernel=kernel)
+        return
+    if size and np.shape(val) != np.shape(zin):
+        ctx.reject('limit_result_shape', observed=list(np.shape(val)), expected=list(np.shape(zin)))
         return
     val = np.asarray(val).ravel()
     est = np.abs(np.asarray(info.error_estimate, dtype=float)).ravel()
